@@ -528,6 +528,10 @@ def catalog(tier: str) -> list[Spec]:
     for k, w in [(2, 1), (3, 2)] + ([] if q else [(4, 3)]):
         sp.append(Spec(f"fan_resume(k={k},w={w})", {"k": k, "w": w}, (lambda k=k, w=w: wf_fan(k, w)),
                        resume=True, tags=("resume", "fan")))
+    # ... with two different steps executing at the snapshot (the worker step and the gated collector)
+    sp.append(Spec("fan_gatefin_resume(k=2,w=1)", {}, lambda: wf_fan(2, 1, gate_fin=True), resume=True, tags=("resume", "fan")))
+    if not q:
+        sp.append(Spec("fan_gatefin_resume(k=3,w=2)", {}, lambda: wf_fan(3, 2, gate_fin=True), resume=True, tags=("resume", "fan")))
     sp.append(Spec("fan_retry_resume(k=2,w=2,zero)", {}, lambda: wf_fan(2, 2, "zero", fail_uids=(0,)),
                    resume=True, tags=("resume", "retry")))
     sp.append(Spec("collect_resume(w=2)", {}, lambda: wf_collect(2), resume=True, tags=("resume", "collect")))
